@@ -275,8 +275,8 @@ struct Space
       {
          Phase p;
          p.name = "actions_closed_with_vetoes";
-         p.root = { CORE_OPS, "ENABLE", "DISABLE", "ANY" };
-         p.inner = { "ANY", "ONE_A", "EOF_", "SUCCESS", CORE_OPS, "ENABLE", "DISABLE" };
+         p.root = { CORE_OPS, "ENABLE", "DISABLE", "ANY", "IF_APPLY" };
+         p.inner = { "ANY", "ONE_A", "EOF_", "SUCCESS", CORE_OPS, "ENABLE", "DISABLE", "IF_APPLY", "APPLY", "APPLY0" };
          p.N = 3;
          p.L = thorough ? 3 : 2;
          p.sigma = "ab";
